@@ -242,6 +242,54 @@ func verif_ProxyConfigurer_GetBaseConfig(c ProxyConfigurer) {
 	verif.Ensures(b == VerifBaseOf(c), "the_embedded_base")
 }
 
+// VerifNameOf / VerifTypeOf: name and type of a proxy configuration.
+//
+//verif:pure
+func VerifNameOf(c ProxyConfigurer) string {
+	switch v := c.(type) {
+	case *TCPProxyConfig:
+		return v.Name
+	case *UDPProxyConfig:
+		return v.Name
+	case *HTTPProxyConfig:
+		return v.Name
+	case *HTTPSProxyConfig:
+		return v.Name
+	case *TCPMuxProxyConfig:
+		return v.Name
+	case *STCPProxyConfig:
+		return v.Name
+	case *XTCPProxyConfig:
+		return v.Name
+	case *SUDPProxyConfig:
+		return v.Name
+	}
+	return ""
+}
+
+//verif:pure
+func VerifTypeOf(c ProxyConfigurer) string {
+	switch v := c.(type) {
+	case *TCPProxyConfig:
+		return v.Type
+	case *UDPProxyConfig:
+		return v.Type
+	case *HTTPProxyConfig:
+		return v.Type
+	case *HTTPSProxyConfig:
+		return v.Type
+	case *TCPMuxProxyConfig:
+		return v.Type
+	case *STCPProxyConfig:
+		return v.Type
+	case *XTCPProxyConfig:
+		return v.Type
+	case *SUDPProxyConfig:
+		return v.Type
+	}
+	return ""
+}
+
 // MarshalToMsg fills the registration message from the configuration: it
 // writes the message only, and the message carries the configuration's name
 // and type.
@@ -254,8 +302,7 @@ func verif_ProxyConfigurer_GetBaseConfig(c ProxyConfigurer) {
 func verif_ProxyConfigurer_MarshalToMsg(c ProxyConfigurer, m *msg.NewProxy) {
 	verif.Requires(m != nil, "message_present")
 	c.MarshalToMsg(m)
-	b := VerifBaseOf(c)
-	verif.Ensures(b != nil && m.ProxyName == b.Name && m.ProxyType == b.Type, "message_names_the_proxy")
+	verif.Ensures(m.ProxyName == VerifNameOf(c) && m.ProxyType == VerifTypeOf(c), "message_names_the_proxy")
 }
 
 //verif:det-fn reflect.TypeOf
